@@ -333,7 +333,15 @@ def rule_token_init(ck):
         params = [a.arg for a in init.args.args][1:3]
         calls = [c for c in ast.walk(init) if isinstance(c, ast.Call) and isinstance(c.func, ast.Attribute) and c.func.attr == "__init__"
                  and ((isinstance(c.func.value, ast.Call) and norm_text(c.func.value.func) == "super") or norm_text(c.func.value).endswith("Token"))]
-        ok = any([norm_text(a) for a in c.args[-2:]] == params or [norm_text(a) for a in c.args[:2]] == params for c in calls)
+        def hands_on(c):
+            pos = [norm_text(a) for a in c.args]
+            kw = {k.arg: norm_text(k.value) for k in c.keywords if k.arg}
+            if pos[-2:] == params or pos[:2] == params:
+                return True
+            # spelled with keywords (ctx_start=..., ctx_end=...), wholly or for the second position only
+            given = pos[:2] + [kw.get(nm) for nm in ("ctx_start", "ctx_end")][len(pos[:2]):]
+            return given == params
+        ok = any(hands_on(c) for c in calls)
         stores = {t.attr for a_ in ast.walk(init) if isinstance(a_, ast.Assign) for t in a_.targets if isinstance(t, ast.Attribute) and norm_text(t.value) == "self"}
         ck.instance(("token-init", q), {"class": q, "passes positions on": ok}, fn=q + ".__init__")
         if not ok and not {"ctx_start", "ctx_end"} <= stores:
